@@ -485,6 +485,8 @@ class RunLengthArray(NPSIndexable, np.lib.mixins.NDArrayOperatorsMixin):
         return self.__class__(np.append(all_events, self._events[-1]), sum_values)
 
     def _get_position(self, idx):
+        if np.any(np.asanyarray(idx) < -len(self)) or np.any(np.asanyarray(idx) >= len(self)):
+            raise IndexError(f"index {idx} is out of bounds for RunLengthArray of size {len(self)}")
         idx = np.where(idx < 0, len(self)+idx, idx)
         return self._values[np.searchsorted(self._events, idx, side="right")-1]
 
